@@ -243,7 +243,7 @@ func TestC08(t *testing.T) {
 		if sc.Binary {
 			frames, closed, problem, err := cl.RecvBinUntil(sentOpq)
 			if err != nil {
-				fail("harness: %v", err)
+				undecided(t, rec, fmt.Sprintf("C08 %s: %v", sc, err))
 			}
 			if problem != "" {
 				fail("malformed reply frame: %s (after %d frames)", problem, len(frames))
@@ -292,7 +292,7 @@ func TestC08(t *testing.T) {
 				}
 				got, err := cl.RecvText(kind)
 				if err != nil {
-					fail("harness: %v", err)
+					undecided(t, rec, fmt.Sprintf("C08 %s: %v", sc, err))
 				}
 				if c.Kind == wire.RawBytes {
 					if got.Class != wire.Error || len(got.Problems) > 0 {
